@@ -20,9 +20,11 @@ EXPLANATION = (
     'token level: (R1) for each of the 20 DS9-representable classes (+ regular polygon via to_polygon) the emitted shape name '
     'is accepted by the reader and, with the reader\'s annulus-expansion rule applied to the number of tokens the template '
     'writes, is rebuilt as exactly one region of the same class, every written field landing in the same constructor slot '
-    '(including the ellipse/box-annulus slot permutation); (R2) inverse constants: pixel coordinates are written as v+1 (scalar '
+    '(including the ellipse/box-annulus slot permutation); (R1, continued) inverse constants: pixel coordinates are written as v+1 (scalar '
     'and vertex branch, x and y) and lexed as float−1; sizes are never shifted; the (class, field) pairs the writer halves are '
-    'exactly those the reader doubles; angles are written in degrees and lexed by the angle lexer; (R3) the writer\'s inverted '
+    'exactly those the reader doubles; angles are written in degrees and lexed by the angle lexer; (R2) the reader\'s lexers themselves (rule shared with C10.R3): '
+    'numbers by float() of the whole token minus one suffix character, the suffix -> unit table, pixel shift −1 — so every token the '
+    'writer can emit (including exponent notation for very small sizes) is lexed whole; (R3) the writer\'s inverted '
     'frame table maps every astropy frame to a DS9 name the reader maps back to it; (R4) skip discipline: every branch that '
     'announces "skipping" leaves the iteration/function or yields a tested sentinel, and no `K not in D` warning is followed by '
     'an unguarded D[K]; (R5) include sense: the region string starts with "-" exactly when the include flag is falsy, include is '
@@ -500,6 +502,12 @@ def r5(ctx):
         ctx.bad(meta_fn.qualname.split(':')[1], 'include-lost', f'translated include is {txt}', meta_fn.loc())
 
 
+def r2(ctx):
+    """the reader's number / unit lexers (C10.R3) are part of the round trip: a token the writer emits must be lexed whole."""
+    from .c10 import r3 as c10r3
+    c10r3(ctx)
+
+
 def r6(ctx):
     from .c13 import r5 as c13r5
     # determinism rule of C13 restricted to the DS9 writer
@@ -541,26 +549,24 @@ def render(t, ph):
     if isinstance(t, App) and t.name == 'apply' and isinstance(t.args[0], App) and t.args[0].name == 'attr:join' \
             and isinstance(t.args[1], Tup):
         return render(t.args[0].args[0], ph).join(render(a, ph) for a in t.args[1].items)
+    if isinstance(t, App) and t.name in ('str', 'call:str') and len(t.args) == 1:
+        return render(t.args[0], ph)
+    if isinstance(t, Ite):
+        return render(t.a if _concrete_bool(t.cond, ph) else t.b, ph)
     raise AnalysisError('C09.R8', 'metadata string', f'string-building term not understood: {show(t, 160)}')
 
 
-def _regex_hooks():
-    import re
-
-    def compile_(ev, a, k):
-        if a and isinstance(a[0], Const) and isinstance(a[0].v, str):
-            return Obj('regex', {'pattern': a[0]}, None)
-        return NotImplemented
-
-    def findall(ev, a, k):
-        base = a[0]
-        if isinstance(base, Obj) and base.cls == 'regex' and len(a) == 2 and isinstance(a[1], Const):
-            out = []
-            for mt in re.findall(base.fields['pattern'].v, a[1].v):
-                out.append(Tup(tuple(Const(x) for x in mt)) if isinstance(mt, tuple) else Const(mt))
-            return Tup(tuple(out), 'list')
-        return NotImplemented
-    return {'re.compile': compile_, 'method:findall': findall}
+def _concrete_bool(c, ph):
+    """truth of a condition over rendered strings (membership / equality tests only)."""
+    if isinstance(c, Const):
+        return bool(c.v)
+    if isinstance(c, BoolT):
+        xs = [_concrete_bool(a, ph) for a in c.args]
+        return {'and': all(xs), 'or': any(xs), 'not': not xs[0]}.get(c.op) if c.op != 'xor' else xs[0] != xs[1]
+    if isinstance(c, Cmp) and c.op in ('in', 'notin', 'not in', '==', '!='):
+        a, b = render(c.lhs, ph), render(c.rhs, ph)
+        return {'in': a in b, 'notin': a not in b, 'not in': a not in b, '==': a == b, '!=': a != b}[c.op]
+    raise AnalysisError('C09.R8', 'metadata string', f'condition on the text not understood: {show(c, 160)}')
 
 
 def _meta_writer(ctx):
@@ -584,11 +590,7 @@ def r8(ctx):
     S = lambda n: Obj('str', {}, n)          # noqa: E731
     T, G1, G2 = S('T'), S('G1'), S('G2')
     # the reader function that lexes "key=value ..." (holds the metadata regex) and the one merging the raw dicts
-    lex = [f for f in rmod.functions.values()
-           if any((call_name(c) or '') in ('re.compile', 'compile') for c in calls_in(f.node)) and len(f.node.args.args) == 1
-           and any(isinstance(n, ast.Constant) and n.value == 'tag' for n in ast.walk(f.node))]
-    ctx.need(len(lex) == 1, 'ds9 read', 'metadata lexer (regex + tag list) not identified')
-    lex = lex[0]
+    lex = ds9.meta_lexer(m)
     merge = [f for f in rmod.functions.values() if len(f.node.args.args) == 4
              and sum(1 for c in calls_in(f.node) if (call_name(c) or '').endswith('.update')) >= 3]
     ctx.need(len(merge) == 1, 'ds9 read', 'raw-metadata merge function not identified')
@@ -613,7 +615,7 @@ def r8(ctx):
             continue
         line = render(ev.call(mkstr, [d], {}), PLACEHOLDERS)
         # (b) the reader's own regex and delimiter stripping, on the writer's text
-        ev2 = Evaluator(m, hooks=_regex_hooks())
+        ev2 = Evaluator(m, hooks=ds9.regex_hooks())
         got = ev2.call(lex, [Const(line)], {})
         ok = isinstance(got, DictV) and not got.has_symbolic()
         txt = got.get('text') if ok and 'text' in got.keys() else None
@@ -675,20 +677,33 @@ def r8(ctx):
             ctx.bad(construct, 'reader-binding', f'region built from the parsed metadata: {bad}', make.loc())
         else:
             ctx.ok(construct, f'`{line}` -> lexed back, not coerced, bound to the region')
-    # a text that contains the writer's own closing delimiter (DS9 can express it with another delimiter pair)
-    ev = Evaluator(m)
-    reg = Obj('CirclePixelRegion', {'meta': DictV([{'text': T}]), 'visual': DictV([{}])}, 'region', m.cls('CirclePixelRegion'))
-    d = ev.call(meta_fn, [reg, Const('circle')], {})
-    ph = {'T': 'a}b'}
-    line = render(ev.call(mkstr, [d], {}), ph)
-    got = Evaluator(m, hooks=_regex_hooks()).call(lex, [Const(line)], {})
-    txt = got.get('text') if isinstance(got, DictV) and 'text' in got.keys() else None
-    if isinstance(txt, Const) and txt.v == ph['T']:
-        ctx.ok('text delimiters', 'a text containing "}" is written with a delimiter the lexer closes correctly')
+    # texts that contain delimiter characters: DS9 offers {} "" '' — any text avoiding one pair is expressible
+    probes = ['a}b', '{q}', 'say "hi"', "it's", 'a}b"c', "a}b'c", 'ab}', '"ab']
+    reg_ci = m.cls('CirclePixelRegion')
+    failed = []
+    for txt in probes:
+        ev = Evaluator(m)
+        reg = Obj('CirclePixelRegion', {'meta': DictV([{'text': T, 'tag': Tup((G1,), 'list')}]), 'visual': DictV([{}])},
+                  'region', reg_ci)
+        d = ev.call(meta_fn, [reg, Const('circle')], {})
+        ph = {'T': txt, 'G1': txt}
+        line = render(ev.call(mkstr, [d], {}), ph)
+        got = Evaluator(m, hooks=ds9.regex_hooks()).call(lex, [Const(line)], {})
+        ok = isinstance(got, DictV) and {'text', 'tag'} <= set(got.keys())
+        t_ = got.get('text') if ok else None
+        g_ = got.get('tag') if ok else None
+        if not (isinstance(t_, Const) and t_.v == txt and isinstance(g_, Tup) and len(g_.items) == 1
+                and isinstance(g_.items[0], Const) and g_.items[0].v == txt):
+            failed.append((txt, line, show(t_, 40), show(g_, 60)))
+    if not failed:
+        ctx.ok('text delimiters', f'{len(probes)} texts/tags containing delimiter characters are written with a pair the lexer '
+               'closes correctly')
     else:
+        txt, line, t_, g_ = failed[0]
         ctx.bad('text delimiters', 'closing-brace-in-text',
-                f'text {ph["T"]!r} is written as `{line}` and lexed back as {show(txt, 40)}: the writer always delimits with '
-                '{...} although DS9 also offers "..." and \'...\'', meta_fn.loc())
+                f'text/tag {txt!r} is written as `{line}` and lexed back as text={t_}, tag={g_} ({len(failed)} of '
+                f'{len(probes)} probes differ): the written delimiter pair must not occur in the value (DS9 offers {{}}, "" '
+                "and '')", meta_fn.loc())
 
 
 class _SubCtx:
@@ -723,6 +738,7 @@ class _SubCtx:
 
 RULES = [
     RuleDef('R1', 'token-level writer∘reader round trip per class (names, slots, inverse constants)', r1, 21),
+    RuleDef('R2', 'reader lexers: whole-token float(), suffix table, pixel shift (shared with C10.R3)', r2, 5),
     RuleDef('R3', 'frame tables are mutually inverse', r3, 6),
     RuleDef('R4', 'skip discipline (stated belief / check-then-use)', r4, 8),
     RuleDef('R5', 'include sense survives (sign, {0,1})', r5, 2),
